@@ -59,6 +59,21 @@ struct CWorld {
     node: iox2_node_h,
     factory: iox2_port_factory_pub_sub_h,
     size: usize,
+    hdr: usize,
+}
+
+unsafe fn set_hdr(b: &iox2_service_builder_pub_sub_h, cfg: &PsCfg) -> c_int {
+    if cfg.hdr_size == 0 {
+        return IOX2_OK; // the C API defaults to "()" / 0 / 1
+    }
+    iox2_service_builder_pub_sub_set_user_header_type_details(
+        b,
+        iox2_type_variant_e::FIXED_SIZE,
+        cfg.hdr_name.as_ptr() as *const c_char,
+        cfg.hdr_name.len() as _,
+        cfg.hdr_size as _,
+        cfg.hdr_align as _,
+    )
 }
 
 pub fn ps_world(cfg: &PsCfg, svc: &str, node: &str) -> Result<Box<dyn PsWorld>, String> {
@@ -84,12 +99,17 @@ pub fn ps_world(cfg: &PsCfg, svc: &str, node: &str) -> Result<Box<dyn PsWorld>, 
             iox2_node_drop(nh);
             return Err(format!("E:iox2_type_detail_error_e:{}:-", rc));
         }
+        let rc = set_hdr(&b, cfg);
+        if rc != IOX2_OK {
+            iox2_node_drop(nh);
+            return Err(format!("E:iox2_type_detail_error_e:{}:-", rc));
+        }
         iox2_service_builder_pub_sub_set_subscriber_max_buffer_size(&b, cfg.buf as _);
         iox2_service_builder_pub_sub_set_subscriber_max_borrowed_samples(&b, cfg.borrow as _);
         iox2_service_builder_pub_sub_set_enable_safe_overflow(&b, cfg.overflow);
-        iox2_service_builder_pub_sub_set_history_size(&b, 0);
+        iox2_service_builder_pub_sub_set_history_size(&b, cfg.history as _);
         iox2_service_builder_pub_sub_set_max_publishers(&b, 2);
-        iox2_service_builder_pub_sub_set_max_subscribers(&b, 4);
+        iox2_service_builder_pub_sub_set_max_subscribers(&b, 3);
         iox2_service_builder_pub_sub_set_max_nodes(&b, 8);
         let mut f: iox2_port_factory_pub_sub_h = null_mut();
         let rc = iox2_service_builder_pub_sub_open_or_create(b, null_mut(), &mut f);
@@ -97,7 +117,7 @@ pub fn ps_world(cfg: &PsCfg, svc: &str, node: &str) -> Result<Box<dyn PsWorld>, 
             iox2_node_drop(nh);
             return Err(cerr!(iox2_pub_sub_open_or_create_error_e, iox2_pub_sub_open_or_create_error_string, rc));
         }
-        Ok(Box::new(CWorld { node: nh, factory: f, size: cfg.size }))
+        Ok(Box::new(CWorld { node: nh, factory: f, size: cfg.size, hdr: cfg.hdr_size }))
     }
 }
 
@@ -115,19 +135,22 @@ impl PsWorld for CWorld {
             if rc != IOX2_OK {
                 return Err(cerr!(iox2_publisher_create_error_e, iox2_publisher_create_error_string, rc));
             }
-            Ok(Box::new(CPub { port: Some(p), loans: Vec::new(), size: self.size }))
+            Ok(Box::new(CPub { port: Some(p), loans: Vec::new(), size: self.size, hdr: self.hdr, dynamic: cfg.dynamic }))
         }
     }
-    fn make_sub(&self, cfg: &PsCfg) -> Result<Box<dyn SubSide>, String> {
+    fn make_sub(&self, cfg: &PsCfg, history_request: Option<usize>) -> Result<Box<dyn SubSide>, String> {
         unsafe {
             let b = iox2_port_factory_pub_sub_subscriber_builder(&self.factory, null_mut());
             iox2_port_factory_subscriber_builder_set_buffer_size(&b, cfg.buf as _);
+            if let Some(h) = history_request {
+                iox2_port_factory_subscriber_builder_set_history_request(&b, h as _);
+            }
             let mut s: iox2_subscriber_h = null_mut();
             let rc = iox2_port_factory_subscriber_builder_create(b, null_mut(), &mut s);
             if rc != IOX2_OK {
                 return Err(cerr!(iox2_subscriber_create_error_e, iox2_subscriber_create_error_string, rc));
             }
-            Ok(Box::new(CSub { port: Some(s), held: Vec::new(), size: self.size }))
+            Ok(Box::new(CSub { port: Some(s), held: Vec::new(), size: self.size, hdr: self.hdr }))
         }
     }
     fn counts(&self) -> (usize, usize) {
@@ -136,6 +159,60 @@ impl PsWorld for CWorld {
                 iox2_port_factory_pub_sub_dynamic_config_number_of_publishers(&self.factory),
                 iox2_port_factory_pub_sub_dynamic_config_number_of_subscribers(&self.factory),
             )
+        }
+    }
+    fn bad_sub(&self, cfg: &PsCfg) -> String {
+        unsafe {
+            let b = iox2_port_factory_pub_sub_subscriber_builder(&self.factory, null_mut());
+            iox2_port_factory_subscriber_builder_set_buffer_size(&b, (cfg.buf + 1) as _);
+            let mut s: iox2_subscriber_h = null_mut();
+            let rc = iox2_port_factory_subscriber_builder_create(b, null_mut(), &mut s);
+            if rc != IOX2_OK {
+                return cerr!(iox2_subscriber_create_error_e, iox2_subscriber_create_error_string, rc);
+            }
+            iox2_subscriber_drop(s);
+            "ok".into()
+        }
+    }
+    fn probe(&self, cfg: &PsCfg, svc: &str, kind: usize) -> String {
+        unsafe {
+            let name = if kind == 4 { format!("{}_nx", svc) } else { svc.to_string() };
+            let sb = match c_service_builder(&self.node, &name) {
+                Ok(s) => s,
+                Err(e) => return e,
+            };
+            let b = iox2_service_builder_pub_sub(sb);
+            let (tname, size) = if kind == 0 { ("verif_other".to_string(), cfg.size * 2) } else { (cfg.type_name.clone(), cfg.size) };
+            let rc = iox2_service_builder_pub_sub_set_payload_type_details(
+                &b,
+                if cfg.dynamic { iox2_type_variant_e::DYNAMIC } else { iox2_type_variant_e::FIXED_SIZE },
+                tname.as_ptr() as *const c_char,
+                tname.len() as _,
+                size as _,
+                cfg.align as _,
+            );
+            if rc != IOX2_OK {
+                return format!("E:iox2_type_detail_error_e:{}:-", rc);
+            }
+            let rc = set_hdr(&b, cfg);
+            if rc != IOX2_OK {
+                return format!("E:iox2_type_detail_error_e:{}:-", rc);
+            }
+            match kind {
+                1 => iox2_service_builder_pub_sub_set_subscriber_max_buffer_size(&b, (cfg.buf + 1) as _),
+                2 => iox2_service_builder_pub_sub_set_max_publishers(&b, 3),
+                3 => iox2_service_builder_pub_sub_set_enable_safe_overflow(&b, !cfg.overflow),
+                6 => iox2_service_builder_pub_sub_set_max_subscribers(&b, 5),
+                7 => iox2_service_builder_pub_sub_set_subscriber_max_borrowed_samples(&b, (cfg.borrow + 1) as _),
+                _ => {}
+            }
+            let mut f: iox2_port_factory_pub_sub_h = null_mut();
+            let rc = if kind == 5 { iox2_service_builder_pub_sub_create(b, null_mut(), &mut f) } else { iox2_service_builder_pub_sub_open(b, null_mut(), &mut f) };
+            if rc != IOX2_OK {
+                return cerr!(iox2_pub_sub_open_or_create_error_e, iox2_pub_sub_open_or_create_error_string, rc);
+            }
+            iox2_port_factory_pub_sub_drop(f);
+            "ok".into()
         }
     }
     fn teardown(self: Box<Self>, node_first: bool) {
@@ -158,6 +235,8 @@ struct CPub {
     port: Option<iox2_publisher_h>,
     loans: Vec<iox2_sample_mut_h>,
     size: usize,
+    hdr: usize,
+    dynamic: bool,
 }
 
 impl CPub {
@@ -166,6 +245,11 @@ impl CPub {
         let mut n: usize = 0;
         iox2_sample_mut_payload_mut(&self.loans[slot], &mut p, &mut n);
         (p as *mut u8, n * self.size)
+    }
+    unsafe fn header(&self, slot: usize) -> *mut u8 {
+        let mut p: *mut c_void = null_mut();
+        iox2_sample_mut_user_header_mut(&self.loans[slot], &mut p);
+        p as *mut u8
     }
 }
 
@@ -185,6 +269,10 @@ impl PubSide for CPub {
             for i in 0..nb {
                 p.add(i).write(0);
             }
+            let h = self.header(self.loans.len() - 1);
+            for i in 0..self.hdr {
+                h.add(i).write(0);
+            }
             Ok(())
         }
     }
@@ -199,6 +287,10 @@ impl PubSide for CPub {
             for i in 0..nb {
                 p.add(i).write(pattern(seed, i));
             }
+            let h = self.header(slot);
+            for i in 0..self.hdr {
+                h.add(i).write(pattern(seed + 77, i));
+            }
             nb
         }
     }
@@ -211,6 +303,21 @@ impl PubSide for CPub {
                 return Err(cerr!(iox2_send_error_e, iox2_send_error_string, rc));
             }
             Ok(n)
+        }
+    }
+    fn send_copy(&mut self, n: usize, seed: u64) -> Result<usize, String> {
+        unsafe {
+            let data: Vec<u8> = (0..n * self.size).map(|i| pattern(seed, i)).collect();
+            let mut r: usize = 0;
+            let rc = if self.dynamic {
+                iox2_publisher_send_slice_copy(self.port.as_ref().unwrap(), data.as_ptr() as *const c_void, self.size, n, &mut r)
+            } else {
+                iox2_publisher_send_copy(self.port.as_ref().unwrap(), data.as_ptr() as *const c_void, self.size, &mut r)
+            };
+            if rc != IOX2_OK {
+                return Err(cerr!(iox2_send_error_e, iox2_send_error_string, rc));
+            }
+            Ok(r)
         }
     }
     fn drop_loan(&mut self, slot: usize) {
@@ -249,6 +356,7 @@ struct CSub {
     port: Option<iox2_subscriber_h>,
     held: Vec<iox2_sample_h>,
     size: usize,
+    hdr: usize,
 }
 
 impl SubSide for CSub {
@@ -274,7 +382,10 @@ impl SubSide for CSub {
             iox2_publish_subscribe_header_drop(hh);
             let nb = n * self.size;
             let bytes = core::slice::from_raw_parts(p as *const u8, nb);
-            let d = if hn as usize == n { format!("n={} len={} {}", hn, nb, hex(bytes)) } else { format!("n={}/{} len={} {}", hn, n, nb, hex(bytes)) };
+            let mut hp: *const c_void = core::ptr::null();
+            iox2_sample_user_header(&s, &mut hp);
+            let hb = core::slice::from_raw_parts(hp as *const u8, self.hdr);
+            let d = if hn as usize == n { format!("n={} len={} {} hdr={}", hn, nb, hex(bytes), hex(hb)) } else { format!("n={}/{} len={} {} hdr={}", hn, n, nb, hex(bytes), hex(hb)) };
             self.held.push(s);
             Ok(Some(d))
         }
@@ -379,6 +490,29 @@ impl EvWorld for CEvWorld {
                 iox2_port_factory_event_dynamic_config_number_of_notifiers(&self.factory),
                 iox2_port_factory_event_dynamic_config_number_of_listeners(&self.factory),
             )
+        }
+    }
+    fn probe(&self, cfg: &EvCfg, svc: &str, kind: usize) -> String {
+        unsafe {
+            let name = if kind == 3 { format!("{}_nx", svc) } else { svc.to_string() };
+            let sb = match c_service_builder(&self.node, &name) {
+                Ok(s) => s,
+                Err(e) => return e,
+            };
+            let b = iox2_service_builder_event(sb);
+            match kind {
+                0 => iox2_service_builder_event_set_event_id_max_value(&b, (cfg.max_id + 1) as _),
+                1 => iox2_service_builder_event_set_max_notifiers(&b, 5),
+                2 => iox2_service_builder_event_set_max_listeners(&b, 5),
+                _ => {}
+            }
+            let mut f: iox2_port_factory_event_h = null_mut();
+            let rc = if kind == 4 { iox2_service_builder_event_create(b, null_mut(), &mut f) } else { iox2_service_builder_event_open(b, null_mut(), &mut f) };
+            if rc != IOX2_OK {
+                return cerr!(iox2_event_open_or_create_error_e, iox2_event_open_or_create_error_string, rc);
+            }
+            iox2_port_factory_event_drop(f);
+            "ok".into()
         }
     }
     fn teardown(self: Box<Self>, node_first: bool) {
